@@ -71,6 +71,24 @@ MUTANTS = [
     ("c11-write-not-closing", "C11", "rpyc/core/stream.py",
      "        except socket.error:\n            ex = sys.exc_info()[1]\n            self.close()\n            raise EOFError(ex)\n\n\nclass TunneledSocketStream",
      "        except socket.error:\n            ex = sys.exc_info()[1]\n            raise EOFError(ex)\n\n\nclass TunneledSocketStream"),
+    # ---- C15
+    ("c15-expired-gt", "C15", "rpyc/lib/__init__.py",
+     "        return self.finite and time.time() >= self.tmax", "        return self.finite and time.time() > self.tmax"),
+    ("c15-call-ignores-expiry", "C15", "rpyc/core/async_.py",
+     "        if self.expired:\n            return\n        self._is_exc = is_exc", "        self._is_exc = is_exc"),
+    ("c15-callback-after-ready-appended", "C15", "rpyc/core/async_.py",
+     "        if self._is_ready:\n            func(self)\n        else:\n            self._callbacks.append(func)", "        self._callbacks.append(func)"),
+    ("c15-wait-serve-1s", "C15", "rpyc/core/async_.py",
+     "            self._conn.serve(self._ttl)", "            self._conn.serve(1)"),
+    ("c15-sync-ignores-timeout", "C15", "rpyc/core/protocol.py",
+     "        return self.async_request(handler, *args, timeout=timeout).value", "        return self.async_request(handler, *args).value"),
+    ("c15-timeleft-unclamped", "C15", "rpyc/lib/__init__.py",
+     "        return max((0, self.tmax - time.time())) if self.finite else None", "        return (self.tmax - time.time()) if self.finite else None"),
+    ("c15-callbacks-reversed", "C15", "rpyc/core/async_.py",
+     "        for cb in self._callbacks:\n            cb(self)", "        for cb in reversed(self._callbacks):\n            cb(self)"),
+    ("c15-ready-before-obj", "C15", "rpyc/core/async_.py",
+     "        if self._is_ready:\n            return True\n        if self._ttl.expired():\n            return False",
+     "        if self._is_ready:\n            return True"),
     # ---- C10
     ("c10-decref-le", "C10", "rpyc/lib/colls.py",
      "            if slot[1] < count:", "            if slot[1] <= count:"),
